@@ -17,16 +17,29 @@ def tr_numbers(m, degrees=False):
     return ' '.join(fmt(clean(x)) for x in m.card_entries(degrees))
 
 
+def renum_expr(t, smap, cmap):
+    g = lambda m, k: m.get(k, k)
+    if isinstance(t, (int, np.integer)):
+        return g(smap, abs(int(t))) * (1 if t > 0 else -1)
+    if t[0] == 'f':
+        return ('f', g(smap, abs(t[1])) * (1 if t[1] > 0 else -1), t[2])
+    if t[0] == '#':
+        return ('#', renum_expr(t[1], smap, cmap))
+    if t[0] == '^':
+        return ('^', g(cmap, t[1]))
+    return (t[0], renum_expr(t[1], smap, cmap), renum_expr(t[2], smap, cmap))
+
+
 class Tr:
     """A transformation together with its spelling on the card."""
 
     def __init__(self, motion, spelling='inline', number=None):
         self.motion, self.spelling, self.number = motion, spelling, number
 
-    def paren(self):
+    def paren(self, tmap=None):
         """text that goes inside ( ) after FILL=n or TRCL=, and whether starred"""
         if self.spelling == 'number':
-            return str(self.number), False
+            return str((tmap or {}).get(self.number, self.number)), False
         if self.spelling == 'inline3':
             return ' '.join(fmt(clean(x)) for x in self.motion.O), False
         if self.spelling == 'star':
@@ -42,28 +55,30 @@ class HCell:
         self.lat, self.ranges, self.array = lat, ranges, array   # ranges: [(lo,hi)]*3, array: flat list
         self.base = None    # lattice base vectors (reference), list of 3-vectors (len = dims)
 
-    def card(self):
+    def card(self, deck=None):
+        smap = getattr(deck, 'smap', {}); cmap = getattr(deck, 'cmap', {})
+        umap = getattr(deck, 'umap', {}); tmap = getattr(deck, 'tmap', {})
         mat = '0' if not self.mat else '%d %s' % (self.mat, self.rho)
-        head = '%d %s %s' % (self.num, mat, render_expr(self.expr))
+        head = '%d %s %s' % (cmap.get(self.num, self.num), mat, render_expr(renum_expr(self.expr, smap, cmap)))
         parts = {}
         if self.u:
-            parts['u'] = 'u=%d' % self.u
+            parts['u'] = 'u=%d' % umap.get(self.u, self.u)
         if self.lat:
             parts['lat'] = 'lat=%d' % self.lat
         if self.fill is not None or self.array is not None:
             star = ''
             tail = ''
             if self.filltr is not None:
-                txt, st = self.filltr.paren()
+                txt, st = self.filltr.paren(tmap)
                 star = '*' if st else ''
                 tail = ' (%s)' % txt
             if self.array is not None and not getattr(self, 'single', False):
                 rng = ' '.join('%d:%d' % r for r in self.ranges)
-                parts['fill'] = '%sfill=%s %s%s' % (star, rng, ' '.join(str(x) for x in self.array), tail)
+                parts['fill'] = '%sfill=%s %s%s' % (star, rng, ' '.join(str(umap.get(x, x)) for x in self.array), tail)
             else:
-                parts['fill'] = '%sfill=%d%s' % (star, self.fill, tail)
+                parts['fill'] = '%sfill=%d%s' % (star, umap.get(self.fill, self.fill), tail)
         if self.trcl is not None:
-            txt, st = self.trcl.paren()
+            txt, st = self.trcl.paren(tmap)
             if self.trcl.spelling == 'number':
                 parts['trcl'] = 'trcl=%s' % txt
             else:
@@ -81,6 +96,8 @@ class HDeck(Deck):
         self.surfcards = {}       # number -> card text (without number)
         self.trcards = {}         # number -> (Motion, starred)
         self.mats = {}            # number -> card text
+        # optional renumbering applied when the deck is rendered (the reference keeps its own numbers)
+        self.cmap, self.smap, self.umap, self.tmap = {}, {}, {}, {}
 
     def add_surface(self, num, mn, params):
         self.refsurfs[num] = refsem.mcnp_surface(mn, params)
@@ -100,11 +117,19 @@ class HDeck(Deck):
         return [c for c in self.hcells if c.u == u]
 
     def finish(self):
-        self.cells = [c.card() for c in self.hcells]
-        self.surfs = ['%d %s' % (n, t) for n, t in sorted(self.surfcards.items()) if isinstance(n, int)]
+        self.cells = [c.card(self) for c in self.hcells]
+        self.surfs = []
+        for n, t in sorted(self.surfcards.items(), key=lambda kv: str(kv[0])):
+            if not isinstance(n, int):
+                continue
+            # a card text may start with a TR number ('7 tz ...')
+            mm = __import__('re').match(r'^(\d+) ([a-zA-Z/].*)$', t)
+            if mm:
+                t = '%d %s' % (self.tmap.get(int(mm.group(1)), int(mm.group(1))), mm.group(2))
+            self.surfs.append('%d %s' % (self.smap.get(n, n), t))
         self.data = []
         for n, (m, star) in sorted(self.trcards.items()):
-            self.data.append(('*tr%d ' if star else 'tr%d ') % n + tr_numbers(m, star))
+            self.data.append(('*tr%d ' if star else 'tr%d ') % self.tmap.get(n, n) + tr_numbers(m, star))
         for n, t in sorted(self.mats.items()):
             self.data.append('m%d %s' % (n, t))
         return self
@@ -300,15 +325,16 @@ class HDeck(Deck):
                                  depth + 1)
 
 
-def provenance_label(chain):
+def provenance_label(chain, cmap=None):
     """Volume comment pairs the converter documents for a chain of plain cells:
-    innermost first, (filler, container) per level."""
+    innermost first, (filler, container) per level (rendered cell numbers)."""
     if chain is None:
         return None
+    g = (lambda k: cmap.get(k, k)) if cmap else (lambda k: k)
     if len(chain) == 1:
-        return ('cell', chain[0])
-    f = chain[-1]
-    return tuple((f, c) for c in reversed(chain[:-1]))
+        return ('cell', g(chain[0]))
+    f = g(chain[-1])
+    return tuple((f, g(c)) for c in reversed(chain[:-1]))
 
 
 def t4_label(t4, vid):
